@@ -133,9 +133,14 @@ type FS struct {
 	// calling task's context with the token held.  It must not call into
 	// this FS's mutating API.
 	BeforeStep func(fsys *FS, st Step)
-	// FailAt, if >0, makes that step fail with FailErr (error injection).
-	FailAt  int
-	FailErr error
+	// FailAt, if >0, makes the steps FailAt .. FailAt+FailLen-1 (FailLen 0 = one
+	// step) fail with FailErr without taking effect (error injection: EIO, a
+	// full disk).  FailKinds, if set, limits this to those kinds of step.
+	FailAt    int
+	FailLen   int
+	FailErr   error
+	FailKinds func(kind string) bool
+	Fired     int // steps that failed by injection
 	Counts  map[string]int
 }
 
@@ -312,11 +317,25 @@ func (f *FS) step(t *simrt.Task, kind, path string, data []byte) error {
 	if f.BeforeStep != nil {
 		f.BeforeStep(f, Step{N: f.Steps, Kind: kind, Path: clean(path), Data: data})
 	}
-	if f.FailAt > 0 && f.Steps == f.FailAt {
+	if f.injected(kind) {
 		t.Sim().Count("fault.fs_error", 1)
+		t.Sim().Count("fault.fs_error@"+kind, 1)
 		return f.FailErr
 	}
 	return nil
+}
+
+//go:norace
+func (f *FS) injected(kind string) bool {
+	n := f.FailLen
+	if n < 1 {
+		n = 1
+	}
+	if f.FailAt > 0 && f.Steps >= f.FailAt && f.Steps < f.FailAt+n && (f.FailKinds == nil || f.FailKinds(kind)) {
+		f.Fired++
+		return true
+	}
+	return false
 }
 
 type fileInfo struct {
@@ -779,8 +798,9 @@ func (f *FS) stepWrite(t *simrt.Task, file *File, p []byte) error {
 	if f.BeforeStep != nil {
 		f.BeforeStep(f, Step{N: f.Steps, Kind: "write@" + itoa(int(file.off)), Path: file.path, Data: p})
 	}
-	if f.FailAt > 0 && f.Steps == f.FailAt {
+	if f.injected("write") {
 		t.Sim().Count("fault.fs_error", 1)
+		t.Sim().Count("fault.fs_error@write", 1)
 		return f.FailErr
 	}
 	return nil
